@@ -26,7 +26,16 @@ Record step_obs := {
   so_grant : option grant        (* what the Grants query returns afterwards *)
 }.
 
+(** One step of a marker lifecycle driven through the real handlers by authorised callers. *)
+Record life_obs := {
+  lo_op : lop;
+  lo_ok : bool;
+  lo_status : status;      (* marker status afterwards *)
+  lo_manager : bool        (* marker.Manager is non-empty afterwards *)
+}.
+
 Inductive case :=
+| CLife (init : life) (steps : list life_obs)
 | CAccess (c : cfg) (o : op) (ok : bool) (after : status)
 | CTransfer (x : xfer) (module_or_contract : bool) (ok : bool) (to_delta from_delta : Z)
             (grant_after : option grant)
@@ -137,8 +146,37 @@ Fixpoint seq_corr (i : N) (s : gstate) (steps : list step_obs) : list string :=
 Definition check_seq (g0 : grant) (bal0 : coins) (steps : list step_obs) : list string :=
   seq_corr 0%N {| gs_grant := Some g0; gs_bal := bal0 |} steps ++ seq_prop 0%N g0 [] steps.
 
+(** *** a marker lifecycle *)
+Fixpoint life_corr (i : N) (l : life) (steps : list life_obs) : list string :=
+  match steps with
+  | [] => []
+  | o :: r =>
+      let '(l', ok) := life_step l (lo_op o) in
+      let tags :=
+        tag (Bool.eqb (lo_ok o) ok) "corr:transition_accepted" ++
+        tag (status_eqb (lo_status o) (l_status l')) "corr:transition_status" ++
+        tag (Bool.eqb (lo_manager o) (l_manager l')) "corr:manager_after_transition" in
+      match tags with
+      | [] => life_corr (N.succ i) l' r
+      | e => map (fun t => (t ++ " @step " ++ N_to_string i)%string) e
+      end
+  end.
+
+(** On the observations alone: once an Active status has been observed, no manager is stored. *)
+Fixpoint life_prop (i : N) (activated : bool) (steps : list life_obs) : list string :=
+  match steps with
+  | [] => []
+  | o :: r =>
+      let activated' := activated || is_active (lo_status o) in
+      match tag (negb (activated' && lo_manager o)) "prop:manager_survived_activation" with
+      | [] => life_prop (N.succ i) activated' r
+      | e => map (fun t => (t ++ " @step " ++ N_to_string i)%string) e
+      end
+  end.
+
 Definition check (c : case) : list string :=
   match c with
+  | CLife init steps => life_corr 0%N init steps ++ life_prop 0%N (l_activated init) steps
   | CAccess c o ok after => check_access c o ok after
   | CTransfer x modc ok dto dfrom ga => check_transfer x modc ok dto dfrom ga
   | CSeq _ g0 bal0 steps => check_seq g0 bal0 steps
